@@ -1,15 +1,17 @@
 (* L1 comparator for C20: the model of Model/Memo.v (generated kernels) is run
    on the operations of an observed trace and must predict every observation. *)
-From Coq Require Import ZArith List Bool.
-From DM Require Import Run.SC20 Model.Memo.
+From Coq Require Import ZArith List Bool String Ascii.
+From DM Require Import Run.SC20 Model.Memo Model.MemoKey.
 Import ListNotations.
 Open Scope Z_scope.
 
 Definition ops_of (tr : list (tev nat Z Z Z)) : list (op nat Z Z) :=
   map (fun t => match t with TNew o => ONew o | TClear i => OClear i | TCall i a _ => OCall i a end) tr.
 
+(* the serialised-store model (Model/Memo.v, Section MemoSerialised); values and their pickles are both identified by
+   the value id, sizes are those of the pickles *)
 Definition model_trace (sizes : list (Z * Z)) (ops : list (op nat Z Z)) : list (tev nat Z Z Z) :=
-  snd (wrun nat Z Z Z cf ckey cthunks (csize sizes) Z.eqb Z.eqb w0 ops).
+  snd (wrun_s nat Z Z Z Z cf ckey cthunks (fun v => v) (fun p => p) (csize sizes) Z.eqb Z.eqb w0 ops).
 
 Definition opt_eqb (a b : option Z) : bool :=
   match a, b with Some x, Some y => Z.eqb x y | None, None => true | _, _ => false end.
@@ -36,3 +38,15 @@ Fixpoint trace_eqb (a b : list (tev nat Z Z Z)) : bool :=
 
 Definition model_agrees (sizes : list (Z * Z)) (tr : list (tev nat Z Z Z)) : bool :=
   trace_eqb (model_trace sizes (ops_of tr)) tr.
+
+(* ---- the key derivation: the text the model hashes against the text the implementation hashes ----
+   float.__repr__ is not modelled: the harness supplies it for the floats of the case (tab);
+   in_alphabet: the harness' own reading of the alphabet predicate (a disagreement is a harness/model drift) *)
+Definition ftab_repr (tab : list (fl * string)) (f : fl) : text :=
+  match find (fun e => fl_same (fst e) f) tab with
+  | Some e => tx (snd e)
+  | None => tx "<float?>"
+  end.
+Definition keytext_agrees (tab : list (fl * string)) (name : string) (c : call) (impl_text : string)
+           (in_alphabet : bool) : bool :=
+  text_eqb (memkey_text (ftab_repr tab) name c) (tx impl_text) && Bool.eqb (call_okb name c) in_alphabet.
